@@ -29,6 +29,8 @@
     perDb          a watch entry remembers the database it was taken in (EXEC checks and UNWATCH unregisters there);
                    code: both use the connection's CURRENT database
     rewatchKeeps   WATCH of an already watched key is ignored (first baseline stays); code: baseline replaced
+    unwatchQueued  UNWATCH inside MULTI is queued and forgets nothing (the watches guard the transaction being built);
+                   old code: executed at once
     watchPurges    WATCH first drops a stored value of the key whose deadline has passed (removal + mark, like the
                    sweeper), so the baseline is taken on an absent key; code: the expired value stays and makes
                    `was_modified_since` true although nothing changed after WATCH
@@ -160,10 +162,13 @@ structure Q where
   perDb : Bool
   rewatchKeeps : Bool
   watchPurges : Bool
+  /-- UNWATCH sent between MULTI and EXEC is queued (a no-op slot of EXEC's reply) and the watches stay until EXEC
+      (`should_queue_command` since 7dd14e2); old code: it ran at once and dropped them -/
+  unwatchQueued : Bool
 deriving DecidableEq, Repr
 
-def Q.code : Q := ⟨false, false, false⟩
-def Q.fixed : Q := ⟨true, true, true⟩
+def Q.code : Q := ⟨false, false, false, false⟩
+def Q.fixed : Q := ⟨true, true, true, true⟩
 
 structure State where
   /-- (db, shard) ↦ tracker -/
@@ -234,6 +239,9 @@ inductive Ev where
   | cmd (c : Nat) (ops : List Op)
   /-- the sweeper's deletion of `(d, k)` (happens iff the deadline has passed); `marks` from the table -/
   | sweep (d : Nat) (k : Key) (marks : Bool)
+  /-- a command of `c` that is refused with an error and changes nothing: MULTI / EXEC / DISCARD / UNWATCH with
+      surplus arguments (process_frame's arity guard since 35e6048) -/
+  | refused (c : Nat)
 deriving DecidableEq, Repr
 
 inductive Reply where
@@ -285,8 +293,10 @@ def step (q : Q) (s : State) (now : Nat) : Ev → State × Reply
     else (keys.foldl (watchKey q c now) s, .ok)
   | .unwatch c =>
     let cn := s.conn c
-    let s' := cn.watched.foldl (unregisterW q cn) s
-    (s'.setConn c { cn with watched := [] }, .ok)
+    if q.unwatchQueued && cn.inTx then (s.setConn c { cn with queued := cn.queued + 1 }, .queued)
+    else
+      let s' := cn.watched.foldl (unregisterW q cn) s
+      (s'.setConn c { cn with watched := [] }, .ok)
   | .multi c =>
     let cn := s.conn c
     if cn.inTx then (s, .err) else (s.setConn c { cn with inTx := true, queued := 0 }, .ok)
@@ -311,6 +321,7 @@ def step (q : Q) (s : State) (now : Nat) : Ev → State × Reply
     if cn.inTx then (s.setConn c { cn with queued := cn.queued + 1 }, .queued)
     else (applyOps s cn.db ops, .ok)
   | .sweep d k marks => (sweepKey s d k marks now, .ok)
+  | .refused _ => (s, .err)
 
 /-- a history: timestamped events -/
 def run (q : Q) (s : State) : List (Nat × Ev) → State
@@ -442,7 +453,8 @@ def step (q : Q) (s : State) (now : Nat) (ss : SState) (ev : Ev) : SState × Opt
     let cn := s.conn c
     if keys.isEmpty || cn.inTx then (ss1, none)
     else (aset ss1 c (watchKeys s now cn.db (aget ss1 c []) keys), none)
-  | .unwatch c => (aset ss1 c [], none)
+  -- prescribed: UNWATCH between MULTI and EXEC is only queued; the watches guard the transaction until EXEC
+  | .unwatch c => if (s.conn c).inTx then (ss1, none) else (aset ss1 c [], none)
   | .exec c _ =>
     if (s.conn c).inTx then (aset ss1 c [], some (verdict s now (aget ss c []))) else (ss1, none)
   | .discard c => if (s.conn c).inTx then (aset ss1 c [], none) else (ss1, none)
